@@ -320,6 +320,10 @@ func (s *State) evalInternal(node any) object.Object { //nolint:funlen,gocognit,
 		if oerr != nil {
 			return *oerr
 		}
+		// An array holds values: not references to the (outer) variables its elements were read from.
+		for i := range elements {
+			elements[i] = object.Value(elements[i])
+		}
 		return object.NewArray(elements)
 	case *ast.MapLiteral:
 		return s.evalMapLiteral(node)
@@ -805,6 +809,10 @@ func (s *State) extendFunctionEnv(
 		if len(args) >= n {
 			extra = args[n:]
 			args = args[:n]
+			// Like the named parameters below, the extra arguments are local copies: deref.
+			for i := range extra {
+				extra[i] = object.Value(extra[i])
+			}
 		}
 		atLeast = " at least"
 	}
